@@ -556,6 +556,12 @@ def r23model(ctx: Ctx) -> RuleReport:
             else:
                 rep.undecided(key, inv.loc(r), norm(ret))
             continue
+        if isinstance(ret, ast.Name) and ret.id == tp and not [x for x in ctx.cg.local_assigns(inv).get(tp, []) if isinstance(x, ast.AST)]:
+            fx = sorted(f if pol else f'not ({f})' for f, pol in facts_ex(ctx, inv, r))
+            rep.violation(key, inv.loc(r), f'under {fx or "no condition"} invert returns its argument unchanged: source and target are not swapped and the role is not '
+                          f'inverted, although invert() is documented to invert every triple (invert_role(role) must be the role of the result, and '
+                          f'invert(invert(t)) / deinvert rely on it)')
+            continue
         if not (isinstance(ret, ast.Tuple) and len(ret.elts) == 3):
             rep.undecided(key, inv.loc(r), norm(ret))
             continue
@@ -1149,3 +1155,71 @@ def r95(ctx: Ctx) -> RuleReport:
     rets = [n for n in walk_local(fi.node) if isinstance(n, ast.Return) and n.value is not None]
     rep.add(f'{fi.fq}: returns the set of visited nodes', fi.loc(), 'ok' if rets and all(isinstance(r.value, ast.Name) for r in rets) else 'undecided')
     return rep
+
+
+# ---------------------------------------------------------------------------------------------
+@rule('R114', 'the reification tables are consulted with the role / concept exactly as the triple has it (no rewriting between the graph and the lookup)')
+def r114(ctx: Ctx) -> RuleReport:
+    rep = RuleReport('R114', r114.title, floor=6)
+    M = ctx.repo.module('penman.model')
+    methods = [f for f in M.all_funcs if f.cls is not None and f.cls.name == 'Model']
+    for fi in methods:
+        sites = []
+        for n in walk_local(fi.node):
+            if isinstance(n, ast.Compare) and len(n.ops) == 1 and isinstance(n.ops[0], (ast.In, ast.NotIn)) \
+                    and norm(n.comparators[0]) in ('self.reifications', 'self.dereifications'):
+                sites.append((n, n.left, norm(n.comparators[0])))
+            elif isinstance(n, ast.Subscript) and norm(n.value) in ('self.reifications', 'self.dereifications') and isinstance(n.ctx, ast.Load):
+                sites.append((n, n.slice, norm(n.value)))
+            elif isinstance(n, ast.Call) and isinstance(n.func, ast.Attribute) and n.func.attr == 'get' and n.args \
+                    and norm(n.func.value) in ('self.reifications', 'self.dereifications'):
+                sites.append((n, n.args[0], norm(n.func.value)))
+        for n, k, table in sites:
+            key = f'{fi.fq}: `{norm(n)[:60]}` looks up what the triple says'
+            verdict, why = _as_written(ctx, fi, k, set())
+            rep.add(key, fi.loc(n), verdict, why if verdict != 'violation' else
+                    f'{why}: the table is asked about a rewritten {"role" if table.endswith(".reifications") else "concept"}, so a triple whose own role is not in the '
+                    f'table (":domain-of" with a constant target under the AMR model, which normalises to ":mod") is reified as if it were, and '
+                    f'dereifying gives back the rewritten role - reify then dereify no longer restores the graph')
+    return rep
+
+
+def _as_written(ctx, fi, e, seen):
+    """Is expression `e` a value taken unchanged from a parameter (the parameter, an element of it, an unpacked element)?"""
+    if isinstance(e, ast.Call) and norm(e.func) in ('cast', 'typing.cast') and len(e.args) == 2:
+        return _as_written(ctx, fi, e.args[1], seen)
+    if isinstance(e, ast.Subscript):
+        return _as_written(ctx, fi, e.value, seen)
+    if isinstance(e, ast.Call):
+        return 'violation', f'the key is the result of `{norm(e)[:50]}`'
+    if not isinstance(e, ast.Name):
+        return 'undecided', f'key `{norm(e)[:40]}`'
+    if e.id in seen:
+        return 'ok', ''
+    seen = seen | {e.id}
+    defs = []
+    for n in walk_local(fi.node):
+        if isinstance(n, ast.Assign):
+            for t in n.targets:
+                if isinstance(t, ast.Name) and t.id == e.id:
+                    defs.append(n.value)
+                elif isinstance(t, (ast.Tuple, ast.List)) and any(isinstance(x, ast.Name) and x.id == e.id for x in t.elts):
+                    defs.append(n.value)
+        elif isinstance(n, ast.AnnAssign) and isinstance(n.target, ast.Name) and n.target.id == e.id and n.value is not None:
+            defs.append(n.value)
+        elif isinstance(n, (ast.For, ast.comprehension)) and any(isinstance(x, ast.Name) and x.id == e.id for x in ast.walk(n.target)):
+            defs.append(None)
+        elif isinstance(n, (ast.AugAssign, ast.NamedExpr)) and isinstance(n.target, ast.Name) and n.target.id == e.id:
+            defs.append(None)
+    if not defs:
+        return ('ok', f'parameter `{e.id}`') if e.id in fi.params else ('undecided', f'`{e.id}` is not a parameter and has no definition')
+    worst = ('ok', f'`{e.id}` is taken unchanged from the arguments')
+    for d in defs:
+        if d is None:
+            return 'undecided', f'`{e.id}` is bound by a loop or an update'
+        v, why = _as_written(ctx, fi, d, seen)
+        if v == 'violation':
+            return v, f'`{e.id}` is `{norm(d)[:50]}`' if isinstance(d, ast.Call) else why
+        if v == 'undecided':
+            worst = (v, why)
+    return worst
